@@ -87,3 +87,11 @@ static int ref_p_18271(Derived const *t) { return t->_d; }
 //OPTIONAL Derived::set_d(Derived *,int) : c_fnames,c_string_fnames,c,c_string,c_fnames_fptrs,c_fnames_uniq,c_fnames_nodb,c_true_names
 //REF Derived::set_d(Derived *,int)
 static void ref_p_41171(Derived *t, int v) { t->_d = v; }
+// the same base-class wrappers called on an object that really is a Derived (virtual dispatch, this-adjustment)
+//VARIANT Base::who(Base const *) : 0 Base_in_Derived
+//VARIANT Base::base_only(Base const *,int) : 0 Base_in_Derived
+//VARIANT Base::pick(Base *) : 0 Base_in_Derived
+//VARIANT Base::pick(Base const *) : 0 Base_in_Derived
+//VARIANT Other::other_only(Other const *) : 0 Other_in_Derived
+//VARIANT Derived::take_ref(Derived const *,Base *) : 1 Base_in_Derived
+//VARIANT Derived::take_ptr(Derived const *,Other *) : 1 Other_in_Derived
